@@ -62,6 +62,14 @@ class TraceCall(Contract):
                 for ret in ("array", "tuple", "dict"):
                     out.append(dict(label=f"pos={n};kw={m};returns={ret}",
                                     n=n, m=m, ret=ret))
+                    if m >= 2:
+                        out.append(dict(
+                            label=f"pos={n};kw={m};returns={ret};kw-reversed",
+                            n=n, m=m, ret=ret, kworder="reversed"))
+        # long tuples (names _0 .. _11: lexicographic order differs from
+        # numeric order beyond ten entries)
+        out.append(dict(label="pos=2;kw=0;returns=tuple12", n=2, m=0,
+                        ret="tuple12"))
         return out
 
     def canaries(self, tier):
@@ -77,6 +85,8 @@ class TraceCall(Contract):
         kwnames = ["alpha", "x", "in__pt_9"][:m]
         kwargs = {k: gm.mk_opaque_array(f"kw_{k}", "concrete", shape=shp)
                   for k in kwnames}
+        if inst.get("kworder") == "reversed":
+            kwargs = dict(reversed(list(kwargs.items())))
         seen = {}
 
         def f(*pls, **kpls):
@@ -90,6 +100,9 @@ class TraceCall(Contract):
                 return body
             if ret == "tuple":
                 return (body, allp[-1])
+            if ret == "tuple12":
+                return tuple(body * (i + 2) if i % 2 == 0 else allp[-1] + i
+                             for i in range(12))
             return {"out": body, "last": allp[-1]}
         f.__name__ = "f"
         try:
@@ -104,9 +117,10 @@ class TraceCall(Contract):
             results = {"_": res}
             h.oblige("trace.return-convention",
                      z3.BoolVal(isinstance(res, NamedCallResult)))
-        elif ret == "tuple":
+        elif ret in ("tuple", "tuple12"):
             h.oblige("trace.return-convention",
-                     z3.BoolVal(isinstance(res, tuple) and len(res) == 2))
+                     z3.BoolVal(isinstance(res, tuple) and len(res) == (
+                         2 if ret == "tuple" else 12)))
             results = {f"_{i}": r for i, r in enumerate(res)} \
                 if isinstance(res, tuple) else {}
         else:
@@ -120,8 +134,13 @@ class TraceCall(Contract):
             return
         call = next(iter(results.values()))._container
         fn = call.function
-        pls = [*seen["pos"], *seen["kw"].values()]
-        given = [*args, *kwargs.values()]
+        # positional parameters pair up by position, keyword parameters by
+        # *keyword* (whatever order the callee received them in)
+        h.oblige("trace.keywords-passed-on", z3.BoolVal(
+            set(seen["kw"]) == set(kwargs)))
+        pls = [*seen["pos"], *[seen["kw"][k] for k in kwargs
+                               if k in seen["kw"]]]
+        given = [*args, *[kwargs[k] for k in kwargs if k in seen["kw"]]]
         h.oblige("trace.placeholders-are-placeholders",
                  z3.BoolVal(all(isinstance(q, Placeholder) for q in pls)))
         names = [q.name for q in pls]
@@ -148,6 +167,7 @@ class TraceCall(Contract):
                 and h.interp.getattr(r, "dtype") == body.dtype))
         want_rt = {"array": ReturnType.ARRAY, "tuple":
                    ReturnType.TUPLE_OF_ARRAYS,
+                   "tuple12": ReturnType.TUPLE_OF_ARRAYS,
                    "dict": ReturnType.DICT_OF_ARRAYS}[ret]
         h.oblige("trace.return-type-recorded",
                  z3.BoolVal(fn.return_type == want_rt))
@@ -234,7 +254,8 @@ class InlineCall(Contract):
 
     def instances(self, tier):
         return [dict(label=k, case=k) for k in
-                ("tagged", "tagged-binding-named-like-parameter", "untagged",
+                ("tagged", "tagged-binding-named-like-parameter",
+                 "tagged-binding-equal-to-its-parameter", "untagged",
                  "named-result-of-inlined", "named-result-of-kept", "marker")]
 
     def canaries(self, tier):
@@ -256,8 +277,12 @@ class InlineCall(Contract):
                                 ReturnType.DICT_OF_ARRAYS,
                                 constantdict({"s": body1, "d": body2}),
                                 tags=frozenset())
-        bx = mkp("y") if capture else gm.mk_opaque_array(
-            "bx", "concrete", shape=(n,))
+        if capture == "same":
+            # the caller's own placeholder "x", equal to the parameter "x"
+            bx = mkp("x")
+        else:
+            bx = mkp("y") if capture else gm.mk_opaque_array(
+                "bx", "concrete", shape=(n,))
         by = gm.mk_opaque_array("by", "concrete", shape=(n,))
         if isinstance(bx, gm._OpaqueMixin):
             # two different argument expressions
@@ -274,7 +299,8 @@ class InlineCall(Contract):
             return self.marker(h)
         tagged = case != "untagged" and case != "named-result-of-kept"
         call, fn, (px, py), (bx, by), (b1, b2) = self.mk_call(
-            h, tagged, capture=case.endswith("like-parameter"))
+            h, tagged, capture="same" if case.endswith("its-parameter")
+            else case.endswith("like-parameter"))
         inl = Inliner()
         rec_args = []
         images = {}
